@@ -66,20 +66,22 @@ def childiters(N, ci):
     return {"filter": lambda c: [x for x in c if lab(x) not in hide], "filter-lazy": lambda c: filter(lambda x: lab(x) not in hide, c)}
 
 
-def perform(q, par, ch, idx=0):
+def perform(q, par, ch, idx=0, family=None):
     """Returns (mismatches, observation in token space of the first mismatch or of the plain run, count of comparisons)."""
     from . import nodes as N
     from anytree import RenderTree
 
     N.new_universe()
     N.Ctx.log = None
+    cls = N.HLines if family is None else N.FAMILIES[family]["cls"]
     for lbl in par:
-        o = N.register(N.HLines(), lbl)
+        o = N.register(cls(), lbl)
         lines = [content(lbl, j) for j in range(1, q["nl"][lbl] + 1)]
         o.lines = lines
-        o.val = "\n".join(lines)
-        o.vlist = list(lines)
-        o.vtuple = tuple(lines)
+        if family is None:
+            o.val = "\n".join(lines)
+            o.vlist = list(lines)
+            o.vtuple = tuple(lines)
     for pp, kids in ch.items():
         for c in kids:
             N.Ctx.objs[c].parent = N.Ctx.objs[pp]
@@ -103,7 +105,8 @@ def perform(q, par, ch, idx=0):
                 rt = RenderTree(start, style=style, childiter=cfn, maxlevel=ml)
                 got_rows = [(r.pre, r.fill, lab(r.node)) for r in rt]
                 again = [(r.pre, r.fill, lab(r.node)) for r in rt] if cname not in ("generator", "filter-lazy") or True else None
-                texts = {"str": str(RenderTree(start, style=style, childiter=cfn, maxlevel=ml)),
+                texts = {"by_attr(lines)": RenderTree(start, style=style, childiter=cfn, maxlevel=ml).by_attr("lines")} if family is not None else {
+                         "str": str(RenderTree(start, style=style, childiter=cfn, maxlevel=ml)),
                          "by_attr(val)": RenderTree(start, style=style, childiter=cfn, maxlevel=ml).by_attr("val"),
                          "by_attr(vlist)": RenderTree(start, style=style, childiter=cfn, maxlevel=ml).by_attr("vlist"),
                          "by_attr(vtuple)": RenderTree(start, style=style, childiter=cfn, maxlevel=ml).by_attr("vtuple"),
@@ -128,7 +131,7 @@ def perform(q, par, ch, idx=0):
             if why:
                 # de-render for the judge
                 rows_tok = [{"pre": derender(p_, segs), "fill": derender(f_, segs), "node": n_} for p_, f_, n_ in got_rows]
-                txt = texts.get(why, texts["str"]) if why in texts else texts["str"]
+                txt = texts.get(why) or next(iter(texts.values()))
                 text_tok = []
                 for line in txt.split("\n"):
                     # the content is "<label>~<j>" or empty; the prefix is everything before it
@@ -219,4 +222,28 @@ def replay_chunk(args):
                 out["attention"].append({"par": par, "ch": ch, "query": q, "bad": obs["bad"][:4]})
             else:
                 out["dropped"] += 1
+    return out
+
+
+def replay_chunk_adv(args):
+    """C17: the same vectors on adversarial node classes; a vector counts only if the plain class renders it as specified."""
+    lines, base, families = args
+    out = {"n": 0, "attention": []}
+    for i, line in enumerate(lines):
+        vec = json.loads(json.loads(line))
+        par, ch = forest_of(vec["k"], vec["p"])
+        q = to_labels(vec)
+        plain = perform(q, par, ch, idx=base + i)
+        if plain.get("build_failed") or plain["bad"]:
+            continue
+        for fam in families:
+            try:
+                obs = perform(q, par, ch, idx=base + i, family=fam)
+            except Exception as e:  # noqa
+                obs = {"n": 0, "bad": [{"raised": "%s: %s" % (type(e).__name__, str(e)[:200])}]}
+            if obs.get("build_failed"):
+                obs = {"n": 0, "bad": [{"what": "tree could not be built with this class"}]}
+            out["n"] += obs["n"]
+            if obs["bad"] and len(out["attention"]) < 10:
+                out["attention"].append({"family": fam, "par": par, "ch": ch, "query": q, "bad": [{k: v for k, v in b.items() if k not in ("rows", "text")} for b in obs["bad"][:3]]})
     return out
